@@ -61,6 +61,9 @@ pub struct C18Case {
     pub seed: u8,
     /// SPI fault on the k-th SPI transaction after RxDone
     pub fault_at: Option<u16>,
+    /// the faulted SPI transaction reaches the chip (side effects happen) before it is reported as failed
+    #[serde(default)]
+    pub fault_late: bool,
     /// modulation the reception is prepared with (index into exec14::dr_params: SF7/125, SF9/125, SF12/125 with
     /// low-data-rate optimisation, SF7/250, SF8/500)
     #[serde(default)]
@@ -107,6 +110,7 @@ impl Shrinkable for C18Case {
             }
         };
         push(&|c| c.fault_at = None, &mut v);
+        push(&|c| c.fault_late = false, &mut v);
         push(&|c| c.via = Via::Driver, &mut v);
         push(&|c| c.board = Board::default(), &mut v);
         push(&|c| c.continuous = false, &mut v);
@@ -168,7 +172,7 @@ impl Ctx<'_> {
             }
         };
         if let Some(k) = c.fault_at {
-            w.fault = Some(Fault { kind: FaultKind::Spi, at: w.call.spi + k });
+            w.fault = Some(Fault { kind: if c.fault_late { FaultKind::SpiLate } else { FaultKind::Spi }, at: w.call.spi + k });
         }
         w.env.tr(|| format!("chip: RxDone; reports len={} offset={} status={:#04x}/{:#04x} rssi={:#04x} snr={:#04x}", c.len, c.offset, c.status_buf, c.status_pkt, c.rssi, c.snr));
         applied
@@ -463,6 +467,7 @@ fn fill_random(r: &mut Rng, c: &mut C18Case, family_126: bool) {
     c.sig_rssi = boundary_u8(r, &[0, 255]);
     c.seed = r.below(256) as u8;
     c.fault_at = if r.chance(1, 12) { Some(r.below(8) as u16) } else { None };
+    c.fault_late = c.fault_at.is_some() && r.chance(1, 2);
 }
 
 impl Property for C18 {
@@ -514,6 +519,7 @@ impl Property for C18 {
             sig_rssi: 0,
             seed: 0,
             fault_at: None,
+            fault_late: false,
             dr: *r.pick(&[0u8, 0, 1, 2, 2, 3, 4]),
             avoid: avoid.iter().cloned().collect(),
         };
@@ -594,7 +600,7 @@ pub fn self_test() -> Result<(), String> {
     for chip in ALL_CHIPS {
         for via in ALL_VIAS {
             for (len, offset, bufsz) in [(12u8, 0u8, 64u16), (12, 250, 12), (65, 3, 64), (0, 0, 0)] {
-                let c = C18Case { chip, board: Board::default(), via, continuous: false, implicit: false, cfg_len: 255, buf: bufsz, len, offset, status_buf: 0x24, status_pkt: 0x24, rssi: 80, snr: 20, sig_rssi: 80, seed: 7, fault_at: None, dr: 0, avoid: vec![] };
+                let c = C18Case { chip, board: Board::default(), via, continuous: false, implicit: false, cfg_len: 255, buf: bufsz, len, offset, status_buf: 0x24, status_pkt: 0x24, rssi: 80, snr: 20, sig_rssi: 80, seed: 7, fault_at: None, fault_late: false, dr: 0, avoid: vec![] };
                 let o = guarded_execute(&C18, &c, true)?;
                 let o2 = guarded_execute(&C18, &c, true)?;
                 if o2.stats.shape != o.stats.shape || o2.stats.counters != o.stats.counters || o2.trace != o.trace {
